@@ -384,3 +384,83 @@ fn c17_auto_task_priority() {
     std::mem::forget(n);
     std::mem::forget(a);
 }
+
+// what the (stubbed) poll map reports: 0 = no polls configured, 1 = next poll not before POLL_AT
+static mut POLL_KIND: u8 = 0;
+static mut POLL_AT: (u32, u32) = (0, 0);
+fn poll_next_stub(_m: &crate::master::poll::PollMap, _now: Instant) -> Next<crate::master::poll::Poll> {
+    match unsafe { POLL_KIND } {
+        0 => Next::None,
+        _ => Next::NotBefore(mk_instant(unsafe { POLL_AT.0 }, unsafe { POLL_AT.1 })),
+    }
+}
+
+/// what Association::next_link_status_task answers while the keep-alive deadline lies in the future (or is absent)
+fn link_status_not_due(a: &Association, now: Instant) -> Next<Task> {
+    match a.next_link_status_deadline {
+        None => Next::None,
+        Some(d) => {
+            assert!(now < d);
+            Next::NotBefore(d)
+        }
+    }
+}
+
+fn no_auto_task(_s: &TaskStates, _c: &AssociationConfig, _a: &Association) -> Next<Task> {
+    Next::None
+}
+
+// @harness c19_next_task_earliest_deadline
+// @props C19
+// @tier thorough
+// @class attempt
+// @timeout 3600
+// @mem 6
+// @units Association::{get_next_task, next_link_status_task}
+// @bounds an association with nothing automatic to do, any clock, any keep-alive deadline (none / past / future), the poll map reporting either "no polls" or "next poll not before P" for any instant P: the association wakes at the EARLIER of P and the keep-alive deadline, and with neither there is nothing to wait for
+// @stubs Association::next_link_status_task -> its own two not-yet-due arms (asserts the deadline is in the future: exact on every path explored); TaskStates::next -> nothing automatic to do (its priority order is c17_auto_task_priority's subject); PollMap::next -> the outcome chosen by the harness (the BTreeMap walk behind it is covered by c19_poll_period_and_demand / c19_smallest_deadline; a poll that is due NOW needs a Poll value and is outside); tokio::time::Instant::now -> harness clock
+// @outside poll due now (prioritised over link status by the first match arm); keep-alive already due (building the 104-byte Task value for it stalls CBMC's byte-extract simplifier: > 900 s in symbolic execution); automatic tasks pending
+#[kani::proof]
+#[kani::unwind(4)]
+#[kani::stub(tokio::time::Instant::now, crate::verif_common::now_fixed)]
+#[kani::stub(crate::master::poll::PollMap::next, poll_next_stub)]
+#[kani::stub(TaskStates::next, no_auto_task)]
+#[kani::stub(Association::next_link_status_task, link_status_not_due)]
+fn c19_next_task_earliest_deadline() {
+    let now = set_now_any();
+    let mut a = mk_quiet_assoc();
+    a.auto_tasks.disable_unsolicited = AutoTaskState::Idle;
+    a.auto_tasks.integrity_scan = AutoTaskState::Idle;
+    a.auto_tasks.enabled_unsolicited = AutoTaskState::Idle;
+    a.auto_tasks.clear_restart_iin = AutoTaskState::Idle;
+    a.auto_tasks.time_sync = AutoTaskState::Idle;
+    a.auto_tasks.event_scan = AutoTaskState::Idle;
+    let has_poll: bool = kani::any();
+    let ps: u32 = kani::any();
+    let pn: u32 = kani::any();
+    kani::assume(pn < 1_000_000_000);
+    let p = mk_instant(ps, pn);
+    kani::assume(p > now);
+    unsafe {
+        POLL_KIND = if has_poll { 1 } else { 0 };
+        POLL_AT = (ps, pn);
+    }
+    let has_ka: bool = kani::any();
+    let d = any_instant();
+    kani::assume(now < d);
+    a.next_link_status_deadline = if has_ka { Some(d) } else { None };
+    let r = a.get_next_task(now);
+    match (has_poll, has_ka) {
+        (false, false) => assert!(matches!(r, Next::None)),
+        (true, false) => assert!(matches!(r, Next::NotBefore(x) if x == p)),
+        (false, true) => assert!(matches!(r, Next::NotBefore(x) if x == d)),
+        (true, true) => {
+            let e = if p <= d { p } else { d };
+            assert!(matches!(r, Next::NotBefore(x) if x == e));
+        }
+    }
+    kani::cover!(has_poll && has_ka && now < d && d < p);
+    kani::cover!(has_poll && has_ka && now < d && p < d);
+    std::mem::forget(r);
+    std::mem::forget(a);
+}
